@@ -1,7 +1,9 @@
 ----------------------------- MODULE MC_Framing -----------------------------
-(* Constant values for the configurations of Framing.tla (MC_Framing_*.cfg: exhaustive design
-   checks on toy sizes; GEN_Framing_*.cfg are written by lib/framing_checks.py from the same
-   definitions: case generators with the real constants). *)
+(* Constant values for the configurations of Framing.tla.  MC_Framing_*.cfg: exhaustive design
+   checks on toy sizes.  The case generators (real constants, Emit = TRUE) are written by
+   lib/framing_checks.py into the work directory of a run as MC_FramingGen_<name>.tla/.cfg;
+   MC_Framing_GenExample.cfg is one of them kept here to be run by hand:
+     tlc -config MC_Framing_GenExample.cfg MC_Framing.tla | grep '^"CASE'  *)
 EXTENDS Framing
 
 SeqsUpTo(S, lo, hi) == UNION {[1 .. k -> S] : k \in lo .. hi}
@@ -16,6 +18,7 @@ ToyOut3 == SeqsUpTo({5, 7, 9}, 0, 3)
 ToyIn4 == SeqsUpTo({5, 6, 7}, 1, 4) \cup SeqsUpTo({5, 12}, 1, 3)
 MixIn2 == {<<5, 6>>, <<6, 12>>}
 MixOut2 == {<<7, 5>>, <<9, 5, 5>>}
+GenExIn == {<<5, 6>>, <<8193, 22>>}
 None == {<< >>}
 MixIn == {<<5, 6>>}
 MixOut == {<<7, 5>>}
